@@ -23,6 +23,7 @@ import (
 	"github.com/zenon-network/go-zenon/chain/nom"
 	"github.com/zenon-network/go-zenon/common/db"
 	"github.com/zenon-network/go-zenon/common/types"
+	"github.com/zenon-network/go-zenon/verifier"
 	"github.com/zenon-network/go-zenon/vm/embedded/definition"
 	"github.com/zenon-network/go-zenon/wallet"
 
@@ -45,7 +46,7 @@ func init() {
 			"V contains only the rules the statement lists; fields outside the hash that the receiver recomputes or ignores (plasma totals, changes hash) may vary freely here — that is C13's subject",
 			"plasma/PoW sufficiency is C12's subject: a mutant refused for plasma reasons counts as refused, an accepted one is not judged on plasma here",
 			"a rejection through a recovered VM panic counts as a rejection",
-			"post-enforcement regime for the receiver-mismatch rule",
+			"both regimes of the receiver-mismatch rule are run (enforcement height 0 and unreachable); the boundary itself is not",
 		},
 	})
 }
@@ -84,6 +85,10 @@ func c03BlockHash(b *nom.AccountBlock) []byte {
 }
 
 var c03P255 = new(big.Int).Lsh(big.NewInt(1), 255)
+
+// c03PreEnforcement: the case runs below the receiver-mismatch enforcement height (a foreign account may then
+// receive a send, once); set per case, children run cases sequentially.
+var c03PreEnforcement bool
 
 // c03Valid judges block b against node n's ledger BEFORE b is offered. Returns "" or the broken rule.
 func c03Valid(n *simnet.Node, b *nom.AccountBlock) string {
@@ -196,7 +201,7 @@ func c03Valid(n *simnet.Node, b *nom.AccountBlock) string {
 		if !send.IsSendBlock() {
 			return "receive-of-a-non-send"
 		}
-		if send.ToAddress != b.Address {
+		if send.ToAddress != b.Address && !c03PreEnforcement {
 			return "receive-of-send-addressed-to-another-account"
 		}
 		if contract && ch != b.MomentumAcknowledged.Height {
@@ -419,6 +424,21 @@ func c03Run(c *fw.C, caseID string) {
 	r := c.Rand(caseID)
 	base := c.ScratchDir("c03")
 	defer os.RemoveAll(base)
+	var idx int
+	fmt.Sscanf(caseID, "camp:%d", &idx)
+	simnet.Setup()
+	c03PreEnforcement = idx%2 == 1
+	if c03PreEnforcement {
+		verifier.ReceiverMismatchEnforcementHeight = 1 << 60
+	} else {
+		verifier.ReceiverMismatchEnforcementHeight = 0
+	}
+	defer func() { verifier.ReceiverMismatchEnforcementHeight = 0 }()
+	regime := "post-enforcement"
+	if c03PreEnforcement {
+		regime = "pre-enforcement"
+	}
+	c.SetAdd("regimes", regime)
 	P := simnet.Open("P", base+"/P", simnet.MockGenesis(), g.PillarKeys)
 	defer P.Stop()
 	N := simnet.Open("N", base+"/N", simnet.MockGenesis(), nil)
@@ -540,6 +560,17 @@ func c03BaseBlocks(c *fw.C, P *simnet.Node, w *simnet.Workload, r *rand.Rand) []
 	gen("user-send-plain", &nom.AccountBlock{BlockType: nom.BlockTypeUserSend, Address: u.Address, ToAddress: g.User2.Address, TokenStandard: types.ZnnTokenStandard, Amount: big.NewInt(int64(1 + r.Intn(1000))), Data: []byte{1, 2, 3}}, u)
 	gen("user-send-to-contract", &nom.AccountBlock{BlockType: nom.BlockTypeUserSend, Address: g.User2.Address, ToAddress: types.PlasmaContract, TokenStandard: types.QsrTokenStandard, Amount: big.NewInt(20 * g.Zexp),
 		Data: c03FuseData(g.User3.Address)}, g.User2)
+	// pre-enforcement regime: User3 first receives a send addressed to somebody else (legitimate there, once)
+	if c03PreEnforcement {
+		for _, other := range []*wallet.KeyPair{g.User2, g.User1, g.User4} {
+			if hs := w.Unreceived(other.Address, 3); len(hs) > 0 {
+				if _, err := P.Receive(g.User3, hs[0]); err == nil {
+					_, _ = P.Produce(0)
+					break
+				}
+			}
+		}
+	}
 	// a user receive: make sure something is waiting for User3
 	if hs := w.Unreceived(g.User3.Address, 5); len(hs) > 0 {
 		gen("user-receive", &nom.AccountBlock{BlockType: nom.BlockTypeUserReceive, Address: g.User3.Address, FromBlockHash: hs[0]}, g.User3)
@@ -677,13 +708,17 @@ func c03Offer(c *fw.C, N *simnet.Node, mb *nom.AccountBlock, kind, mutation, mod
 	} else if err != nil {
 		c.SetAdd("rejection_reasons", c05ErrClass(err))
 	}
-	c.Distinct(fmt.Sprintf("%s/%s/%s/%s", kind, mutation, model, outcome))
+	regime := "post"
+	if c03PreEnforcement {
+		regime = "pre"
+	}
+	c.Distinct(fmt.Sprintf("%s/%s/%s/%s/%s", regime, kind, mutation, model, outcome))
 	if accepted {
 		c.Count("mutants_accepted", 1)
 		// clean N's pool: the pool lives in memory only
 		defer N.Restart()
 		if why != "" {
-			c.Violation(fmt.Sprintf("invalid-block-accepted %s: %s", kind, why), map[string]interface{}{"mutation": mutation, "attacker_model": model,
+			c.Violation(fmt.Sprintf("invalid-block-accepted %s-enforcement %s: %s", regime, kind, why), map[string]interface{}{"mutation": mutation, "attacker_model": model,
 				"block_type": mb.BlockType, "address": mb.Address.String(), "height": mb.Height})
 			return false
 		}
